@@ -188,10 +188,12 @@ def _bind_loop(target, it, types):
         types[target.id] = s[1:]
 
 
-def emptiness_in(ctx, f, R, exceptions):
-    """track producer values through f and check constant-index subscripts; returns number of obligations"""
+def emptiness_in(ctx, f, R, exceptions, seed=None, depth=0):
+    """track producer values through f and check constant-index subscripts; returns number of obligations.  A possibly-empty
+    value handed to a method of the same class (or a function of the same module) is followed into that callee's parameter
+    (one level), unless the call itself is dominated by an emptiness guard on that value."""
     fnode = f.node
-    types = {}
+    types = dict(seed or {})
     # two passes so that uses before textual definitions inside loops are still typed
     for _ in range(2):
         for st in statements(fnode):
@@ -212,6 +214,13 @@ def emptiness_in(ctx, f, R, exceptions):
                     types[n.args[0].args.args[0].arg] = s[1:]
     if not types:
         return 0
+    if seed:
+        # a parameter re-bound in the callee loses the caller's typing
+        for st in statements(fnode):
+            if isinstance(st, ast.Assign):
+                for t in st.targets:
+                    if isinstance(t, ast.Name) and t.id in seed and _spec_of(st.value, types) is None:
+                        types.pop(t.id, None)
     gs = guard_stack(fnode)
     blocks = _blocks_of(fnode)
     parents = {}
@@ -247,8 +256,33 @@ def emptiness_in(ctx, f, R, exceptions):
             continue
         ok = guarded_nonempty(fnode, st, node, base, gs, blocks, parents)
         ctx.check(ok, R, f, ast.unparse(node), "`%s` is reached only when `%s` is non-empty" % (ast.unparse(node), base),
-                  "`%s` indexes `%s`, which is empty when a window is shorter than the run length / no trial matches, and no emptiness guard dominates it: IndexError during synthesis" % (
-                      ast.unparse(node), base), node)
+                  "`%s` indexes `%s`, which is empty when a window is shorter than the run length / no trial matches, and no emptiness guard dominates it: IndexError during synthesis%s" % (
+                      ast.unparse(node), base, " (the value arrives through a parameter from a caller that passes a possibly empty list)" if seed else ""), node)
+    if depth == 0:
+        for node in ast.walk(fnode):
+            if not isinstance(node, ast.Call):
+                continue
+            callee = None
+            skip = 0
+            fn_ = node.func
+            if isinstance(fn_, ast.Attribute) and isinstance(fn_.value, ast.Name) and fn_.value.id in ("self", "cls") and f.cls is not None:
+                callee = f.cls.lookup(fn_.attr)
+                skip = 0 if (callee is not None and callee.is_static) else 1
+            elif isinstance(fn_, ast.Name) and fn_.id in f.module.functions:
+                callee = f.module.functions[fn_.id]
+            if callee is None or isinstance(callee.node, ast.Lambda) or callee is f or callee.name in PRODUCERS:
+                continue
+            seed_ = {}
+            for i, a in enumerate(node.args):
+                sp = _spec_of(a, types)
+                if sp is None or i + skip >= len(callee.params):
+                    continue
+                st = stmt_of(a)
+                if sp[0] and st is not None and guarded_nonempty(fnode, st, a, ast.unparse(a), gs, blocks, parents):
+                    sp = [False] + list(sp[1:])
+                seed_[callee.params[i + skip]] = sp
+            if seed_ and any(v[0] or any(v[1:]) for v in seed_.values()):
+                n_obl += emptiness_in(ctx, callee, R, exceptions, seed=seed_, depth=1)
     return n_obl
 
 
